@@ -13,7 +13,11 @@ PROP = Prop(
                            'emitted by the real MarkovCracker at levels 0..6, and boundary strings (shorter than / equal to the n-gram, longer than the maximum, '
                            'out-of-alphabet characters)',
                      clause='find_omen_level(trainer, s) == OmenScorer.parse(s) == the level at which MarkovCracker emits s (or all three say it cannot be generated), '
-                            'through the real file writers and readers')],
+                            'through the real file writers and readers'),
+             Bounded('C11.bounded.enum', 'replay/omen.py', args=['--fn', 'ENUM'],
+                     bound='250 random OMEN models quick / 1500 thorough, every level 0..24 in shuffled order with one shared cache',
+                     clause='the guesser side of the agreement: the level at which the real MarkovCracker emits a string is the sum of its length, initial n-gram and '
+                            'transition levels (same stand-in as C10.bounded.enum)')],
     assumptions=[
         'strings are an uninterpreted sort with length/char/slice axioms; dict lookups raise KeyError exactly on absent keys',
         'the correspondence of the tables (what the trainer writes is what scorer and guesser read) and the smoothing formulas are not under contract: '
